@@ -5,12 +5,14 @@ Each case instantiates one real field action (or a register with a reserved fiel
 RW fields), drives every input with fresh random values on every cycle and compares every
 output with a bit-level next-state model on every cycle.
 """
+import enum as py_enum
 import random
 
 from vmon import env  # noqa: F401
 from vmon.simkit import Top, Mon, simulate, bits, biased_bits, reset_plan, drive_reset
 
-from amaranth import Shape, Value, unsigned, signed
+from amaranth import Const, Shape, Value, unsigned, signed
+from amaranth.hdl import Format, ShapeCastable
 from amaranth.lib import data
 from amaranth.lib import enum as am_enum
 
@@ -40,7 +42,46 @@ class E3(am_enum.Enum, shape=unsigned(3)):
     R = 7
 
 
-SHAPES = {"e2": E2, "e3": E3}
+class Speed(py_enum.Enum):
+    """A plain Python enumeration without a zero-valued member (a field whose encoding starts at 1)."""
+    LOW = 1
+    FULL = 2
+    HIGH = 3
+
+
+class SpeedI(py_enum.IntEnum):
+    LOW = 1
+    FULL = 2
+    HIGH = 3
+
+
+class OffsetBinary(ShapeCastable):
+    """A project-defined shape-castable that gives integers a meaning of its own: the constant for the integer v is
+    the bit pattern v with the top bit inverted (offset binary). The field must start from `const(init)`."""
+
+    def __init__(self, width):
+        self.width = width
+
+    def as_shape(self):
+        return unsigned(self.width)
+
+    def const(self, init):
+        return Const((int(init or 0) ^ (1 << (self.width - 1))) & ((1 << self.width) - 1), self.width)
+
+    def __call__(self, value):
+        return value
+
+    def from_bits(self, raw):
+        return raw ^ (1 << (self.width - 1))        # the integer whose constant has these bits
+
+    def format(self, value, spec):
+        return Format("{}", Value.cast(value))
+
+    def __repr__(self):
+        return f"OffsetBinary({self.width})"
+
+
+SHAPES = {"e2": E2, "e3": E3, "pe": Speed, "pi": SpeedI}
 
 
 def mk_shape(desc):
@@ -55,6 +96,8 @@ def mk_shape(desc):
         return data.ArrayLayout(unsigned(w[0]), w[1])
     if kind == "st":
         return data.StructLayout({f"m{i}": unsigned(x) for i, x in enumerate(w)})
+    if kind == "fx":
+        return OffsetBinary(w)
     return SHAPES[kind]
 
 
@@ -66,7 +109,7 @@ def shape_width(desc):
         return w[0] * w[1]
     if kind == "st":
         return sum(w)
-    return {"e2": 2, "e3": 3}.get(kind, w)
+    return {"e2": 2, "e3": 3, "pe": 2, "pi": 2}.get(kind, w)
 
 
 def n_cases(tier):
@@ -89,6 +132,12 @@ def gen_case(rng, tier, idx):
     elif r < 0.8:
         # a Python range containing 0 (so that the documented default init of 0 is legal), often with a negative start
         shape = ("r", [rng.choice([0, -1, -2, -4, -5, -8]), rng.choice([1, 2, 3, 4, 8, 9])])
+    elif r < 0.84:
+        # a project-defined shape-castable whose constants are not the identity on integers
+        shape = ("fx", rng.randint(1, 8))
+    elif r < 0.88:
+        # plain Python enumerations (Enum / IntEnum) whose members do not include 0
+        shape = (rng.choice(["pe", "pi"]), 0)
     else:
         shape = (rng.choice(["e2", "e3"]), 0)
     w = shape_width(shape)
@@ -120,8 +169,12 @@ def init_value(desc, init_bits):
             out[f"m{i}"] = (init_bits >> pos) & ((1 << x) - 1)
             pos += x
         return out
+    if kind in ("pe", "pi"):
+        return SHAPES[kind](init_bits) if init_bits in (1, 2, 3) and init_bits != 2 else init_bits   # member or plain int
     if kind in SHAPES:
         return SHAPES[kind](init_bits)
+    if kind == "fx":
+        return init_bits ^ (1 << (w - 1))
     return init_bits
 
 
@@ -154,7 +207,7 @@ def run_case(case):
             # the same bit pattern spelled as a negative integer (init=-1 is the all-ones idiom)
             kw_init["init"] = init_bits - (1 << w)
             mon_negative_init = True
-        elif init_bits == 0 and rng.random() < 0.3:
+        elif init_bits == 0 and desc[0] != "fx" and rng.random() < 0.3:
             kw_init = {"init": None}           # "no particular initial value": the documented default applies
         dut = getattr(action, act)(shape, **kw_init)
     else:
@@ -172,7 +225,8 @@ def run_case(case):
         except Exception:
             rep = None
         if rep is not None:
-            mon.run(lambda: mon.ok("reported_init", (rep - init_bits) % (1 << w) == 0 if w else True,
+            arg_bits = init_bits ^ (1 << (w - 1)) if desc[0] == "fx" else init_bits
+            mon.run(lambda: mon.ok("reported_init", (rep - arg_bits) % (1 << w) == 0 if w else True,
                                    f"{act}({shape!r}, init={init_value(desc, init_bits)!r}).init reports {dut.init!r}"))
     st = {"storage": init_bits, "nontrivial": False, "compared": 0}
 
